@@ -63,7 +63,9 @@ fn gen_spec(stream_name: &str, idx: u64, rng: &mut Rng) -> Spec {
         "c07-types" => {
             // one TLV of each type byte 0..=255 (idx / 24 walks the type bytes), plus each named type
             let k = ((idx / 24) % 268) as usize;
-            let l = *rng.pick(&[0usize, 1, 2, 7, 255, 256, 257]);
+            // every type byte (and every named type) x lengths on both sides of the limits a single
+            // type might have (UNIQUE_ID: 128 bytes)
+            let l = *rng.pick(&[0usize, 1, 2, 4, 7, 127, 128, 129, 200, 255, 256, 257, 1000]);
             if k < 256 {
                 tlvs.push((k as u8, None, Blob::new(rng.next() >> 16, l)));
             } else {
@@ -97,6 +99,40 @@ fn gen_spec(stream_name: &str, idx: u64, rng: &mut Rng) -> Spec {
                     tlvs.push((k, nn, Blob::new(0, 0)));
                 }
             }
+        }
+        "c07-echo" => {
+            // self-similar content: the first TLV encodes to exactly the bytes of the address
+            // block (possible for IPv4 / IPv6: the block is chosen so that it reads as a TLV),
+            // the same TLV two or three times in a row, a TLV whose value is a header image
+            let k = rng.u8();
+            let mut first: Option<(u8, Blob)> = None;
+            let addr2 = match fam {
+                1 | 2 => {
+                    let n = if fam == 1 { 12usize } else { 36 };
+                    // find a blob whose bytes we can use as the value (n - 3 bytes)
+                    let blob = Blob::new((rng.next() >> 16) | 2, n - 3);
+                    let mut blk = vec![k, 0, (n - 3) as u8];
+                    blk.extend_from_slice(&blob.bytes());
+                    first = Some((k, blob));
+                    if fam == 1 {
+                        Addr::V4 { src: blk[0..4].try_into().unwrap(), dst: blk[4..8].try_into().unwrap(), sp: u16::from_be_bytes([blk[8], blk[9]]), dp: u16::from_be_bytes([blk[10], blk[11]]) }
+                    } else {
+                        Addr::V6 { src: blk[0..16].try_into().unwrap(), dst: blk[16..32].try_into().unwrap(), sp: u16::from_be_bytes([blk[32], blk[33]]), dp: u16::from_be_bytes([blk[34], blk[35]]) }
+                    }
+                }
+                _ => addr.clone(),
+            };
+            if let Some((k, b)) = first {
+                if rng.chance(3, 4) {
+                    tlvs.push((k, None, b));
+                }
+            }
+            let (k2, n2) = named(rng);
+            let b2 = Blob::new(((rng.next() >> 16) << 4) | 3, 16 + rng.below(30) as usize);
+            for _ in 0..rng.range(1, 3) {
+                tlvs.push((k2, n2, b2.clone()));
+            }
+            return Spec { cmd, tr, addr: addr2, tlvs };
         }
         "c07-many" => {
             let n = rng.range(1, 40);
@@ -296,10 +332,11 @@ impl Monitor for C07 {
     fn streams(&self, tier: Tier) -> Vec<StreamSpec> {
         vec![
             stream("c07-rand", tier.n(48, 600_000, 20_000_000)),
-            exhaustive("c07-types", if tier == Tier::Miri { 48 } else { 24 * 268 }),
+            exhaustive("c07-types", if tier == Tier::Miri { 48 } else { 24 * 268 * 4 }),
             stream("c07-fit", tier.n(0, 24 * 5 * 4, 24 * 5 * 400)),
             stream("c07-many", tier.n(24, 150_000, 5_000_000)),
             stream("c07-flood", tier.n(2, 24 * 12, 24 * 12 * 20)),
+            stream("c07-echo", tier.n(24, 24_000, 1_000_000)),
         ]
     }
     fn run_case(&self, stream: &str, idx: u64, seed: u64, rec: &mut Recorder) {
